@@ -20,6 +20,16 @@ def randword(rng):
 SPEC = chk.Spec('C06', 32, ARM, decoder, False, popcount_rows=('POP_A1', 'PUSH_A1'), randword=randword)
 
 
+# decode must depend on nothing but the word (and the carry flag / IT position where the architecture says so) ALSO when the word is decoded by a
+# running processor: the same word executed twice by one instance - at another address, and again at the same address (a loop) - with different
+# flags / IT state in between; every step compared with the reference (e1prop.shard_repeat)
+from vf.props import e1prop as _e1p  # noqa: E402
+from vf.ref import step as _rstep  # noqa: E402,F401
+from vf.ref.core import REG as _REG  # noqa: E402
+PLAN_REPEAT = _e1p.Plan('C06', sorted(n for n in _REG if n in _e1p.ROWS and _e1p.ROWS[n][0] in ('arm',)), cfgs=('v6', 'v7', 'v5'),
+                        case_kw=lambda rng, row: {'mpu': False, 'mmu': False, 'e': 0})
+
+
 def run(ctx):
     ctx.rule = ('Class selection: all paths of arm_instruction_set.decode_instruction are enumerated with a provenance-tracking int '
                 'jointly with the reference encoding table (vf/ref/enc_arm.py, rows written from DDI 0406C); on every joint region '
@@ -27,7 +37,7 @@ def run(ctx):
                 'undefined, unimplemented-extension rows undefined or NotImplementedError. The witness plus N solver-generated members of '
                 'each region are executed (N=24 quick, 400 thorough), and random words are compared directly (independent of '
                 'the enumeration). For defined rows every reference operand (vf/ref/sem.py decode stage) is compared with the attributes '
-                'of the object from_bitarray returns, under several processor states. Field corners: for every reference row, words in which one field takes a corner value (0, 1, max, max-1, single bits) and the others are random. History independence: one long-lived instance decodes a word in ARM '
+                'of the object from_bitarray returns, under several processor states. Field corners: for every reference row, words in which one field takes a corner value (0, 1, max, max-1, single bits) and the others are random. Running decode: the same word executed twice by one instance (elsewhere and at the same address) with different flags / IT state in between, every step compared with the reference. History independence: one long-lived instance decodes a word in ARM '
                 'state, the same numeric word in Thumb state and again in ARM state; each answer must equal the stateless decoder. Non-trivial: the reference row is a defined '
                 'instruction; distinct = distinct word.')
     ctx.technique = 'concolic path enumeration as a generator + differential testing against reference encoding tables'
@@ -41,6 +51,7 @@ def run(ctx):
     tasks += [(chk.corner_shard, ('vf.props.c06:SPEC', i, 16, ctx.shard_seed(500 + i), ctx.n(4, 40))) for i in range(16)]
     for k, cn in enumerate(('v5', 'v7', 'v4')):
         tasks += [(chk.corner_shard, ('vf.props.c06:SPEC', i, 8, ctx.shard_seed(700 + 20 * k + i), ctx.n(2, 20), cn)) for i in range(8)]
+    tasks += [(_e1p.shard_repeat, ('vf.props.c06:PLAN_REPEAT', ctx.shard_seed(900 + i), ctx.n(150, 3000))) for i in range(8)]
     ctx.pmap(_dispatch, tasks)
     ctx.acc.exhaustive = True
     ctx.acc.extra['exhaustive_part'] = 'class selection over all 2^32 words via the joint region partition'
@@ -51,6 +62,8 @@ def _dispatch(fn, args):
 
 
 def replay(case, bucket=None):
+    if 'poke' in case:
+        return _e1p.replay_multi(case)
     if case.get('kind') == 'history':
         from vf.props import c07
         return chk.replay_history(SPEC, c07.SPEC32, case['word'])
